@@ -70,6 +70,10 @@ RULES = {
     #     `({ |__i__| Ok((__i__, E)) })(i)?`; it is beta-reduced to `(i, E)` (Verus cannot infer the
     #     closure's result type/ensures).  Pure re-bracketing: the closure has no effects and never fails.
     "R9": [(re.compile(r"\(\{\s*\|__i__\|\s*Ok\(\(__i__,\s*(.*?)\)\)\s*\}\)\(i\)\?", re.S), r"(i, \1)")],
+    # R9b: nom-derive `Parse = "{ |i| E }"` fields expand to an immediately applied closure `({ |i| E })(i)?`; it is
+    #      beta-reduced to `(E)?` (the parameter is the variable it is applied to), so that a closure which only exists
+    #      to hand `&mut parser` to E no longer captures it.
+    "R9b": [(re.compile(r"\(\{\s*\|i\|\s*(.*?)\s*\}\)\(i\)\?", re.S), r"(\1)?")],
     # R10: `e.to_string()` on a nom error -> inherent shim method of the same name (no rewrite needed);
     #      `make_error(i, K)` is nom's generic constructor == Error::new(i, K) for the default error type.
     "R10": [(re.compile(r"nom::error::make_error\("), "nom::error::Error::new(")],
@@ -99,7 +103,7 @@ def rule_r14(body, hits):
     return out
 
 
-def rule_r15(body, hits):
+def rule_r15(body, hits, stub_body=None, meta=None):
     """R15: inline nom 7.1.3 `combinator::map_res(P, |x| F)(i)?` at a `let (i, X) = ...;` statement:
          let (i, X) = { let __mr_in = i; let (__mr_rest, __mr_o1) = P(__mr_in)?;
                         match ({ let x = __mr_o1; F }) { Ok(__mr_o2) => (__mr_rest, __mr_o2),
@@ -136,6 +140,14 @@ def rule_r15(body, hits):
         if not cm or not tail:
             raise AnchorLost("R15: map_res statement not in the expected shape")
         x, f_body = cm.group(1), cm.group(2).strip()
+        if stub_body:
+            # the closure body is itself opaque to Verus (a closure capturing `&mut`): replaced by a contracted stub (R5)
+            if meta is not None:
+                meta.setdefault("opaque_statements", []).append(
+                    {"fn": "map_res closure", "text": " ".join(f_body.split()),
+                     "sha256": hashlib.sha256(f_body.encode()).hexdigest()[:16], "stub": stub_body})
+            hits["R5"] = hits.get("R5", 0) + 1
+            f_body = stub_body
         rep = ("let (i, %s) = { let __mr_in = i; let (__mr_rest, __mr_o1) = %s(__mr_in)?; "
                "match ({ let %s = __mr_o1; %s }) { Ok(__mr_o2) => (__mr_rest, __mr_o2), "
                "Err(_) => { return Err(nom::Err::Error(nom::error::Error::new(__mr_in, nom::error::ErrorKind::MapRes))); } } };"
@@ -381,7 +393,8 @@ class Extractor:
                 if "R14" in val.split():
                     body = rule_r14(body, hits)
                 if "R15" in val.split():
-                    body = rule_r15(body, hits)
+                    sb = [v for k, v in opts if k == "mapresbody"]
+                    body = rule_r15(body, hits, sb[0].strip() if sb else None, self.meta)
         # ---- body edits, applied from the end so offsets stay valid
         edits = []  # (pos_start, pos_end, replacement)
         cl = None
@@ -390,7 +403,7 @@ class Extractor:
         for key, val in opts:
             if key in ("requires", "ensures", "decreases"):
                 contract.append((key, val.strip().rstrip(",")))
-            elif key in ("rules", "prerules"):
+            elif key in ("rules", "prerules", "mapresbody"):
                 pass
             elif key.startswith("closure "):
                 if cl is None:
